@@ -33,6 +33,8 @@ use vh::keys::{Alg, Key};
 use vh::panicmon::catch;
 use vh::{Args, Report, Rng};
 
+static SCOPE_ROUTE: std::sync::atomic::AtomicU64 = std::sync::atomic::AtomicU64::new(0);
+
 struct RealVerifier;
 impl JwsVerifier for RealVerifier {
   fn verify(&self, input: VerificationInput, public_key: &Jwk) -> Result<(), SignatureVerificationError> {
@@ -414,6 +416,24 @@ const RELS: [MethodRelationship; 5] = [
   MethodRelationship::CapabilityInvocation,
 ];
 
+/// The same scope obtained through the other public routes: its name parsed with FromStr (names written by the harness)
+/// or the const constructor.
+fn scope_via(s: MethodScope, route: u64) -> MethodScope {
+  let (name, ctor): (&str, MethodScope) = match s {
+    MethodScope::VerificationMethod => ("VerificationMethod", MethodScope::VerificationMethod),
+    MethodScope::VerificationRelationship(MethodRelationship::Authentication) => ("Authentication", MethodScope::authentication()),
+    MethodScope::VerificationRelationship(MethodRelationship::AssertionMethod) => ("AssertionMethod", MethodScope::assertion_method()),
+    MethodScope::VerificationRelationship(MethodRelationship::KeyAgreement) => ("KeyAgreement", MethodScope::key_agreement()),
+    MethodScope::VerificationRelationship(MethodRelationship::CapabilityDelegation) => ("CapabilityDelegation", MethodScope::capability_delegation()),
+    MethodScope::VerificationRelationship(MethodRelationship::CapabilityInvocation) => ("CapabilityInvocation", MethodScope::capability_invocation()),
+  };
+  match route % 3 {
+    0 => s,
+    1 => name.parse::<MethodScope>().expect("harness scope name"),
+    _ => ctor,
+  }
+}
+
 fn all_scopes() -> Vec<MethodScope> {
   let mut v = vec![MethodScope::VerificationMethod];
   v.extend(RELS.iter().map(|r| MethodScope::VerificationRelationship(*r)));
@@ -447,7 +467,13 @@ fn build_doc(rng: &mut Rng, iota: bool) -> (Doc, Store, Vec<MethodSpec>, Vec<DID
   let n = 3 + rng.usize(3);
   let mut specs = Vec::new();
   for i in 0..n {
-    let fragment = format!("key-{}", i);
+    // fragments may contain every character the DID URL fragment grammar allows, including '/' and '?'
+    let fragment = match rng.below(6) {
+      0 => format!("keys/signing-{}", i),
+      1 => format!("key?rev={}", i),
+      2 => format!("k.e_y~{}:x", i),
+      _ => format!("key-{}", i),
+    };
     let general = rng.bool();
     let scope = if general { MethodScope::VerificationMethod } else { MethodScope::VerificationRelationship(*rng.pick(&RELS)) };
     let frag = match &mut doc {
@@ -520,6 +546,37 @@ fn build_doc(rng: &mut Rng, iota: bool) -> (Doc, Store, Vec<MethodSpec>, Vec<DID
       };
       if ok && !twins.contains(&id) {
         twins.push(id);
+      }
+    }
+  }
+  // bare references to look-alike ids (the own DID in another letter case, shortened / extended by a character) with
+  // the fragment of an own method, placed in relationships that do NOT hold that method: they name other DIDs' methods
+  // and must never make the own method count as part of that relationship
+  if rng.chance(2, 3) {
+    let own = doc.core().id().to_string();
+    let spec = rng.pick(&specs).clone();
+    let alike = match rng.below(3) {
+      0 => own.replacen("did:example:c08x", "did:example:C08X", 1),
+      1 => own[..own.len() - 1].to_string(),
+      _ => format!("{}0", own),
+    };
+    if alike != own && !iota {
+      let reference = format!("{}#{}", alike, spec.fragment);
+      let rel_names = ["authentication", "assertionMethod", "keyAgreement", "capabilityDelegation", "capabilityInvocation"];
+      let mut v: Value = serde_json::to_value(doc.core()).expect("harness: document to JSON");
+      let mut placed = false;
+      for (r, name) in RELS.iter().zip(rel_names) {
+        if spec.scopes.contains(&MethodScope::VerificationRelationship(*r)) || !rng.bool() {
+          continue;
+        }
+        let arr = v.as_object_mut().expect("document object").entry(name.to_string()).or_insert_with(|| json!([]));
+        arr.as_array_mut().expect("relationship array").push(json!(reference));
+        placed = true;
+      }
+      if placed {
+        if let (Doc::Core(d), Ok(nd)) = (&mut doc, serde_json::from_value::<CoreDocument>(v)) {
+          *d = nd;
+        }
       }
     }
   }
@@ -606,10 +663,12 @@ impl Cx {
         self.viol(&format!("create_jws-panic@{}", p.file_only()), format!("{} at {}", p.msg, p.loc()), &case);
         return;
       }
-      Ok(Err(_)) => {
+      Ok(Err(e)) => {
         self.rep.inc("create_jws_refused");
         if o.detached_payload || eff_b64 || in_charset(&pl, false) {
           self.rep.inc("create_jws_refused_legal_input");
+          // (e.g. the bare fragment also matches a dangling look-alike reference: the library then finds no method)
+          let _ = &e;
         }
         return;
       }
@@ -660,7 +719,8 @@ impl Cx {
         v = v.method_id(mid.clone());
       }
       if let Some(s) = scope {
-        v = v.method_scope(s);
+        let route = SCOPE_ROUTE.fetch_add(1, std::sync::atomic::Ordering::Relaxed);
+        v = v.method_scope(scope_via(s, route));
       }
       v
     };
